@@ -24,6 +24,23 @@ if os.path.exists(rp):
         e = res[sid]
         out.append("| %s | %s | %s | %s | %s |" % (sid, e["property"], ", ".join(e.get("detected_by", [])) or "**missed**",
                    str(meta.get("summary", ""))[:260].replace("|", "\\|").replace("\n", " "), str(meta.get("needs", ""))[:220].replace("|", "\\|").replace("\n", " ")))
+# sub-spaces per check, from the evidence of the last run of each check
+import glob
+out.append("\n#### Enumerated sub-spaces per check (from `evidence/<id>.json`, tier and seed of the last run)\n")
+out.append("| check | tier | space | cases | bounds |\n|---|---|---|---|---|")
+for ep in sorted(glob.glob(os.path.join(HERE, "evidence", "C*.json"))):
+    ev = json.load(open(ep))
+    agg = {}
+    order = []
+    for sp in ev.get("coverage", {}).get("spaces", []):
+        name = re.sub(r"/depth\d+$", "", sp["name"])
+        if name not in agg:
+            agg[name] = [0, sp.get("bounds", "")]
+            order.append(name)
+        agg[name][0] += sp.get("cases", 0)
+    for name in order:
+        out.append("| %s | %s | %s | %d | %s |" % (ev["property_id"], ev.get("tier", ""), name, agg[name][0],
+                   str(agg[name][1])[:240].replace("|", "\\|").replace("\n", " ")))
 text = "\n".join(out) + "\n"
 p = os.path.join(HERE, "DESIGN.md")
 s = open(p).read()
